@@ -4,6 +4,7 @@
 #![allow(clippy::type_complexity)]
 #![allow(dead_code)]
 
+mod clock;
 mod core;
 mod enc;
 mod explore;
@@ -57,6 +58,7 @@ fn main() {
         std::env::set_var("TZ", HARNESS_TZ);
     }
     install_panic_hook();
+    clock::self_test();
     let Some((prop, run, replay)) = table().into_iter().find(|(p, _, _)| *p == args[1]) else {
         eprintln!("MACHINERY: unknown property {}", args[1]);
         std::process::exit(3);
@@ -97,6 +99,9 @@ fn main() {
     let two_passes = prop != "C20" && std::env::var("VERIF_SINGLE_PASS").is_err();
     if two_passes {
         set_logging(true);
+        // the first pass also runs with the process wall clock moved back to 1986, before any
+        // NEXRAD Level II data: every data timestamp the code sees then lies in its future
+        clock::set_global_now_ms(PASS1_CLOCK_MS);
         let r1 = std::panic::catch_unwind(|| run(ctx));
         if r1.is_err() {
             let p = ESCAPED_PANIC.lock().ok().and_then(|g| g.clone()).unwrap_or_else(|| "<unknown panic>".into());
@@ -109,6 +114,7 @@ fn main() {
         }
         ctx.mark_pass_boundary("trace");
     }
+    clock::set_global_offset_ns(0);
     set_logging(false);
     let r = std::panic::catch_unwind(|| run(ctx));
     let code = match r {
